@@ -163,7 +163,8 @@ def rebuild_ops(im, k, n, rng, edit):
             elif v[0] == "int":
                 op[4][j][1] = ["int", str(int(v[1]) + 1)]
             elif v[0] == "time":
-                op[4][j][1] = ["time", str(int(v[1]) + 1 if int(v[1]) < 9000 else 2000)] + v[2:]
+                # another minute (a changed year could leave the calendar: 29 February)
+                op[4][j][1] = v[:5] + [str((int(v[5]) + 1) % 60)] + v[6:]
             elif v[0] == "lit":
                 op[4][j][1] = ["lit", v[1] + "X", v[2], v[3]]
             elif v[0] == "bool":
